@@ -21,7 +21,7 @@ CLAIMS = {
    tech="kind-dispatch coverage of the equality / hashing / ordering entry points + who-may-write and must-pass-through rules in package set + go/ssa storage-independence of returned sets + presence-test dominance and map-range order classification in Equals",
    text="Decides: Equals, RawEquals and the set hash cover every kind of type with a panicking residual and the set ordering covers the three primitive kinds; in package set only Add/Remove write buckets, buckets are chosen by rules.Hash and members compared with rules.Equivalent, Add appends only after the equivalence scan; every set-returning function returns fresh bucket storage; equality reads map members only under presence tests (differing key sets are noticed) and does not depend on map iteration order. Swapped-condition arms of Equals have swapped bodies (symmetry); set equivalence is decided by Equals, never RawEquals, and Remove deletes only after an equivalence comparison.",
    note="Not decided: reflexivity/symmetry/transitivity of number equality, hash/equality coherence for numbers, trichotomy (value-level). "),
- "C04": dict(rules=["C04.op-prologue","C04.convert-wrapper","C04.call-marks","C04.stdlib-mark-tolerance"],
+ "C04": dict(rules=["C04.op-prologue","C04.convert-wrapper","C04.call-marks","C04.stdlib-mark-tolerance","C04.rebuild-keeps-marks","C06.single-mark-layer","C19.rebuild-preserves-marks"],
    tech="AST shape rule on 21 operation methods (mark prologue) + typestate for payload access + must-pass-through of WithMarks in the convert wrapper and Function.Call",
    text="Decides: every operation method tests, unmarks and re-marks ALL its operands (or purely delegates); payload assertions in operation methods happen only after the prologue; the convert wrapper and function.Call re-apply the marks they strip on every success return.",
    note="Not decided: value equality of marked and unmarked runs, mark handling inside AllowMarked implementations (exempted by the property). "),
